@@ -261,3 +261,144 @@ Proof.
   rewrite Eds, (later_deltas_split latest dsLe dsT HLe HT), (later_deltas_split latest dsGK dsT HGK HT).
   apply same_reports_refl.
 Qed.
+
+(* ---------------------------------------------------------------- more cuts *)
+Lemma run_part_cut A c l bef st X ds b st' :
+  sd_sorted l -> run_part A bef st l X = (ds, b, st', None) ->
+  let l1 := filter (fun t => t_sd t <=? c) l in
+  let l2 := filter (fun t => c <? t_sd t) l in
+  exists ds1 b1 st1 ds2,
+    run_part A bef st l1 (l2 ++ X) = (ds1, b1, st1, None) /\ run_part A b1 st1 l2 X = (ds2, b, st', None)
+    /\ ds = ds1 ++ ds2 /\ Forall (fun d => d_sd d <= c) ds1 /\ Forall (fun d => c < d_sd d) ds2.
+Proof.
+  intros Hs H l1 l2. rewrite (sorted_split c l Hs) in H. fold l1 l2 in H. rewrite run_part_app in H.
+  destruct (run_part A bef st l1 (l2 ++ X)) as [[[ds1 b1] st1] o1] eqn:E1.
+  destruct o1; [discriminate|]. destruct (run_part A b1 st1 l2 X) as [[[ds2 b2] st2] o2] eqn:E2.
+  inversion H; subst. exists ds1, b1, st1, ds2.
+  split; [reflexivity|]. split; [exact E2|]. split; [reflexivity|]. split.
+  - eapply (run_part_sdP A (fun z => z <= c)); [|exact E1].
+    unfold l1. apply Forall_forall. intros x Hx. apply filter_In in Hx as [_ Hx]. apply Z.leb_le. exact Hx.
+  - eapply (run_part_sdP A (fun z => c < z)); [|exact E2].
+    unfold l2. apply Forall_forall. intros x Hx. apply filter_In in Hx as [_ Hx]. apply Z.ltb_lt. exact Hx.
+Qed.
+
+Lemma run_part_nil A l : forall bef st X b st', run_part A bef st l X = ([], b, st', None) -> l = [] /\ b = bef /\ st' = st.
+Proof.
+  destruct l as [|t l]; intros bef st X b st' H; cbn [run_part] in H.
+  - inversion H; auto.
+  - exfalso. destruct (delta_for_tx A bef t (l ++ X) st) as [[d inj]| |]; try discriminate.
+    destruct (set_latest A st (t_af t) (d_post d)) as [st1| |]; try discriminate.
+    destruct (run_injected A (t :: bef) st1 inj (l ++ X)) as [[[dsi b1] st2] o1].
+    destruct o1; [discriminate|]. destruct (run_part A b1 st2 l X) as [[[ds' b2] st3] o']. discriminate.
+Qed.
+
+(* a property of every reported row *)
+Section DProp.
+  Variable Q : delta -> Prop.
+  Hypothesis HQ : forall bef t aft st d inj, delta_for_tx exact bef t aft st = Ok (d, inj) -> Q d.
+  Lemma run_injected_dprop inj : forall bef st aft ds b st' o,
+    run_injected exact bef st inj aft = (ds, b, st', o) -> Forall Q ds.
+  Proof.
+    induction inj as [|t inj IH]; intros bef st aft ds b st' o H; cbn [run_injected] in H.
+    - inversion H; constructor.
+    - destruct (delta_for_tx exact bef t (inj ++ aft) st) as [[d i]| |] eqn:Ed; try (inversion H; constructor).
+      destruct (set_latest exact st (t_af t) (d_post d)) as [st1| |]; try (inversion H; constructor).
+      destruct (run_injected exact (t :: bef) st1 inj aft) as [[[ds0 b0] s0] o0] eqn:Er.
+      inversion H; subst. constructor; [eapply HQ; eassumption | eapply IH; eassumption].
+  Qed.
+  Lemma run_loop_dprop l : forall bef st ds o, run_loop exact bef st l = (ds, o) -> Forall Q ds.
+  Proof.
+    induction l as [|t l IH]; intros bef st ds o H; cbn [run_loop] in H.
+    - inversion H; constructor.
+    - destruct (delta_for_tx exact bef t l st) as [[d inj]| |] eqn:Ed; try (inversion H; constructor).
+      destruct (set_latest exact st (t_af t) (d_post d)) as [st1| |]; try (inversion H; constructor).
+      destruct (run_injected exact (t :: bef) st1 inj l) as [[[dsi b1] st2] o1] eqn:Ei.
+      pose proof (run_injected_dprop _ _ _ _ _ _ _ _ Ei) as Hi. pose proof (HQ _ _ _ _ _ _ Ed) as Hd.
+      destruct o1.
+      + inversion H; subst. constructor; assumption.
+      + destruct (run_loop exact b1 st2 l) as [ds' o'] eqn:Er. inversion H; subst.
+        constructor; [exact Hd|]. apply Forall_app. split; [exact Hi | eapply IH; eassumption].
+  Qed.
+End DProp.
+
+Definition sfl_sell (d : delta) : Prop := d_sfl d <> None -> is_sell (t_act (d_tx d)) = true.
+Lemma delta_sfl_sell bef t aft st d inj : delta_for_tx exact bef t aft st = Ok (d, inj) -> sfl_sell d.
+Proof. intros H Hn. destruct (delta_for_tx_sfl _ _ _ _ _ _ _ H) as [E Hs]. rewrite E. apply Hs. exact Hn. Qed.
+
+(* ---------------------------------------------------------------- re-emission, once more *)
+Lemma keep_all_ok ds : Forall sfl_sell ds -> exists K', keep_all ds = Ok K'.
+Proof.
+  induction 1 as [|d ds Hd HF IH]; [exists []; reflexivity|]. destruct IH as (K' & E).
+  cbn [keep_all]. rewrite E. unfold keep_delta. destruct (d_sfl d) as [i|] eqn:Es.
+  - assert (Hn : Some i <> None) by discriminate. unfold sfl_sell in Hd. rewrite Es in Hd. specialize (Hd Hn).
+    destruct (t_act (d_tx d)); try discriminate. cbn [bind]. eexists. reflexivity.
+  - cbn [bind]. eexists. reflexivity.
+Qed.
+Lemma keep_all_sim ds : forall K', keep_all ds = Ok K' -> Forall2 (fun k d => row_sim k (d_tx d)) K' ds.
+Proof.
+  induction ds as [|d ds IH]; intros K' H; cbn [keep_all] in H.
+  - inversion H; constructor.
+  - bind_as H as k Ek. bind_as H as r Er. inversion H; subst. constructor; [apply keep_delta_sim; exact Ek | apply IH; reflexivity].
+Qed.
+Lemma respec_glob t sp : t_glob (respec t sp) = t_glob t.
+Proof. unfold respec. destruct (t_act t); reflexivity. Qed.
+Lemma keep_all_sd ds K' : keep_all ds = Ok K' -> map t_sd K' = map d_sd ds.
+Proof.
+  intros H. apply keep_all_sim in H. induction H as [|k d K' ds [sp ->] HF IH]; [reflexivity|].
+  cbn [map]. rewrite respec_sd, IH. reflexivity.
+Qed.
+Lemma keep_all_noglob ds K' : keep_all ds = Ok K' -> Forall (fun d => t_glob (d_tx d) = false) ds -> Forall (fun t => t_glob t = false) K'.
+Proof.
+  intros H. apply keep_all_sim in H. induction H as [|k d K' ds [sp ->] HF IH]; intros Hg; [constructor|].
+  apply Forall_cons_iff in Hg as [Hd Hg]. constructor; [rewrite respec_glob; exact Hd | apply IH; exact Hg].
+Qed.
+
+Lemma sd_sorted_keys l : StronglySorted Z.le (map t_sd l) -> sd_sorted l.
+Proof.
+  induction l as [|t l IH]; cbn [map]; intros H; [constructor|].
+  apply StronglySorted_inv in H as [H Ht]. constructor; [apply IH; exact H|].
+  rewrite Forall_forall in Ht. apply Forall_forall. intros y Hy. apply Ht. apply in_map. exact Hy.
+Qed.
+Lemma d_sorted_keys l : d_sorted l -> StronglySorted Z.le (map d_sd l).
+Proof.
+  induction 1 as [|d l H IH Hd]; cbn [map]; [constructor|]. constructor; [exact IH|].
+  apply Forall_forall. intros y Hy. apply in_map_iff in Hy as (z & <- & Hz). rewrite Forall_forall in Hd. apply Hd. exact Hz.
+Qed.
+
+(* ---------------------------------------------------------------- make_summary, simple mode *)
+Lemma summary_ranges_none latest ds : d_sorted ds -> summary_ranges latest ds = None -> cnt_le latest ds = O.
+Proof.
+  intros Hs H. unfold summary_ranges in H. rewrite lir_eq in H.
+  destruct (cnt_le_spec latest ds Hs) as (_ & _ & Hlen).
+  destruct (cnt_le latest ds) as [|n]; [reflexivity|]. exfalso. cbn [Nat.add] in H.
+  destruct (nth_error ds n) as [dl|] eqn:En.
+  - destruct (first_sfl_after n ds); [destruct (_ <=? _)|]; discriminate.
+  - apply nth_error_None in En. lia.
+Qed.
+
+Lemma make_summary_simple like latest dflt r rg dsP dsK dsT K' :
+  let ds := dflt :: r in
+  ds = dsP ++ dsK ++ dsT -> summary_ranges latest ds = Some rg ->
+  length dsP = first_unsum rg -> length (dsP ++ dsK) = S (rg_latest rg) ->
+  keep_all dsK = Ok K' ->
+  (forall x, In x (afs_of dsP) -> let d := nth (snd x) ds dflt in
+     t_sec (d_tx d) = t_sec like /\ (0 < s_sh (d_post d) -> holding_ok (fst x) (d_post d)))%Qc ->
+  summary_afs rg ds = afs_of dsP
+  /\ make_summary_parts exact latest ds false
+     = Ok (sort_sd (map (hold_tx like) (hs_of ds dflt (afs_of dsP))), K').
+Proof.
+  intros ds Eds Hrg El1 El2 Hk Hper.
+  assert (Eafs : summary_afs rg ds = afs_of dsP).
+  { unfold summary_afs, first_unsum in *. destruct (rg_summarizable rg) as [s|].
+    - rewrite Eds, firstn_app, <- El1, firstn_all, Nat.sub_diag. cbn [firstn]. rewrite app_nil_r. reflexivity.
+    - destruct dsP; [reflexivity | discriminate]. }
+  split; [exact Eafs|].
+  subst ds. unfold make_summary_parts. rewrite Hrg, Eafs, (per_affiliate_simple like _ dflt (afs_of dsP) Hper).
+  cbn [bind].
+  assert (Ek : firstn (S (rg_latest rg) - first_unsum rg) (skipn (first_unsum rg) (dflt :: r)) = dsK).
+  { rewrite <- El1, <- El2, Eds, skipn_app, skipn_all, Nat.sub_diag. cbn [skipn app].
+    rewrite app_length. replace (length dsP + length dsK - length dsP)%nat with (length dsK + 0)%nat by lia.
+    rewrite firstn_app_2. cbn [firstn]. apply app_nil_r. }
+  rewrite Ek, Hk. cbn [bind]. f_equal. f_equal.
+  change (map zero_ri) with (map erase). rewrite number_from_eq, sort_number_is_stable, erase_hold. reflexivity.
+Qed.
